@@ -15,6 +15,7 @@ import (
 	"runtime"
 	"strings"
 	"sync"
+	"sync/atomic"
 	"syscall"
 	"time"
 )
@@ -107,14 +108,30 @@ type Signer struct {
 	stopped bool
 }
 
-// FreePort asks the kernel for a currently unused loopback TCP port.
+var portCounter atomic.Uint64
+
+// FreePort picks a currently unused loopback TCP port BELOW the kernel's ephemeral range
+// (32768-60999 here). A port handed out by "listen on :0" comes from the ephemeral range,
+// where the many short-lived outgoing connections of the harness itself (to the scripted
+// backends and to the proxies) can take it again before the child process binds it; with
+// hundreds of processes in the thorough tier that race was lost six times in a row.
+// The choice does not influence any verdict, so it need not come from rapid.
 func FreePort() (int, error) {
-	ln, err := net.Listen("tcp", "127.0.0.1:0")
-	if err != nil {
-		return 0, err
+	const lo, span = 10240, 22000
+	base := uint64(os.Getpid())*2654435761 + uint64(time.Now().UnixNano())
+	var lastErr error
+	for i := 0; i < 200; i++ {
+		n := portCounter.Add(1)
+		port := lo + int((base+n*7919)%span)
+		ln, err := net.Listen("tcp", fmt.Sprintf("127.0.0.1:%d", port))
+		if err != nil {
+			lastErr = err
+			continue
+		}
+		ln.Close()
+		return port, nil
 	}
-	defer ln.Close()
-	return ln.Addr().(*net.TCPAddr).Port, nil
+	return 0, fmt.Errorf("no free loopback port found: %v", lastErr)
 }
 
 func yamlQuote(s string) string {
@@ -210,7 +227,7 @@ func StartSigner(o SignerOptions) (*Signer, error) {
 		return nil, err
 	}
 	var lastErr error
-	for attempt := 0; attempt < 6; attempt++ {
+	for attempt := 0; attempt < 20; attempt++ {
 		port, err := FreePort()
 		if err != nil {
 			return nil, err
